@@ -422,6 +422,39 @@ def run(seed, tier):
                     out.samples.append(desc)
         if len(out.violations) > 6:
             break
+    # (a'') jump intervals > 1 with adaptation resets in mid-history (what reset_after_swap does to a slow proposal): no update may raise
+    # and the scales stay admissible
+    for name in names:
+        kind0 = adapt.FAMILIES[name][0]
+        for k in (2, 3):
+            for hk in ('always', 'never', 'random'):
+                T = rng.choice([12, 30])
+                n = (T + 10) * k
+                hist = adapt.history(hk, n, rng)
+                reset_at = rng.choice([k + 1, 2 * k, 3 * k + 1, n // 2])
+                desc = dict(proposal=name, adaptation_duration=T, jump_interval=k, history=hk, steps=n, reset_before_step=reset_at)
+                fail = [None]
+
+                def on_kstep(kind, b, a, info):
+                    out.evaluations += 1
+                    if fail[0] is not None:
+                        return
+                    if info['error'] is not None:
+                        fail[0] = 'update %d raised %r (jump interval %d, reset before step %d)' % (info['i'] + 1, info['error'], k, reset_at)
+                        return
+                    bad = admissible(kind, a)
+                    if bad:
+                        fail[0] = 'after update %d: %s (jump interval %d, reset before step %d)' % (info['i'] + 1, bad[0], k, reset_at)
+                adapt.drive(name, T, k, rng.choice([1, 2]), hist, rng, on_kstep, reset_at=reset_at)
+                out.count('slow_with_reset')
+                if fail[0]:
+                    flag = classify(name, 'raise', fail[0])
+                    if flag and any(h['flag'] == flag for h in out.known_hits):
+                        out.count('covered_by_known_' + flag)
+                    else:
+                        out.violations.append(dict(what='%s, history %s, duration %d: %s' % (name, hk, T, fail[0]), replay=desc))
+        if len(out.violations) > 6:
+            break
     # (a') matrix-valued state: positive semidefinite covariance through every update (AdaptM.v)
     mterms, mmeta = [], []
     for name in sorted(adaptm.MFAMILIES):
